@@ -5,6 +5,7 @@
 package drive
 
 import (
+	"go.etcd.io/bbolt"
 	"bufio"
 	"bytes"
 	"encoding/json"
@@ -97,6 +98,10 @@ type Job struct {
 	// kill would leave: bolt between transactions) and fork: Open the copy, probe, read Keys.
 	SnapshotEach bool  `json:"snapshotEach,omitempty"`
 	Keys         []int `json:"keys,omitempty"`
+	// LeftTmp (real mode): what a first Open that lost power inside the metadata initialisation may leave under
+	// wal-meta.db.tmp: garbage | empty | valid (complete database) | short (its first bytes) | torn (full size,
+	// the two bolt meta pages never written).
+	LeftTmp string `json:"leftTmp,omitempty"`
 }
 
 // Out bundles the output streams.
@@ -706,8 +711,55 @@ func newRun(job *Job, out *Out, sh *shared, path string, init *sim.Image) *run {
 			panic(err)
 		}
 		r.dir = d
+		if job.LeftTmp != "" {
+			if err := plantTmp(d, job.LeftTmp); err != nil {
+				panic(err)
+			}
+		}
 	}
 	return r
+}
+
+func plantTmp(dir, kind string) error {
+	name := filepath.Join(dir, "wal-meta.db.tmp")
+	switch kind {
+	case "garbage":
+		return os.WriteFile(name, []byte("not a database, just what a killed process left behind"), 0644)
+	case "empty":
+		return os.WriteFile(name, nil, 0644)
+	}
+	bb, err := bbolt.Open(name, 0644, nil)
+	if err != nil {
+		return err
+	}
+	err = bb.Update(func(tx *bbolt.Tx) error {
+		for _, b := range []string{"wal-meta", "stable"} {
+			if _, err := tx.CreateBucket([]byte(b)); err != nil {
+				return err
+			}
+		}
+		return nil
+	})
+	if cerr := bb.Close(); err == nil {
+		err = cerr
+	}
+	if err != nil || kind == "valid" {
+		return err
+	}
+	b, err := os.ReadFile(name)
+	if err != nil {
+		return err
+	}
+	switch kind {
+	case "short":
+		b = b[:100]
+	case "torn":
+		ps := os.Getpagesize()
+		for i := 0; i < 2*ps && i < len(b); i++ {
+			b[i] = 0
+		}
+	}
+	return os.WriteFile(name, b, 0644)
 }
 
 // snapshotFork (real mode): copy the directory as it is now - what a kill of the
